@@ -941,6 +941,12 @@ fn gen_mixed(rng: &mut Rng, tech: &str, arch: &str, os: &str) -> Option<String> 
                     }
                     put(&mut words, start + k, Word::Val(ret));
                     s_new = start + k + 1;
+                    // x86-64: a word below the return address that points up the stack is taken for the
+                    // saved %rbp ONLY when the callee's %rbp points at that very word; with %rbp = 0 it
+                    // is junk like any other (it is no valid instruction: the stack is clear of modules)
+                    if arch == "amd64" && fp == Fp::Zero && k >= 1 && rng.chance(1, 2) {
+                        put(&mut words, start + k - 1, Word::Addr(s_new + 1 + rng.below(6)));
+                    }
                     // x86: the word below the return address is taken for the saved %ebp when it
                     // points further up the stack
                     let wants_live = matches!(t.kind, Kind::WinStd { .. } | Kind::WinRaAt { .. } | Kind::WinRa { .. } | Kind::Fpo { .. });
@@ -1161,6 +1167,47 @@ fn gen_mixed(rng: &mut Rng, tech: &str, arch: &str, os: &str) -> Option<String> 
     Some(case.render())
 }
 
+/// recover the generator's parameters (base, s0, f0, gaps, return addresses, trailing zeros) from a
+/// generated x86-64 `fp` case, have the model evaluate its layout function on them and compare the
+/// result with the generated stack memory, context and chain
+fn layout_fp_mirror(c: &Case, exp: &[Exp]) -> Result<(), String> {
+    let (base, bytes) = c.stack.as_ref().ok_or("no stack")?;
+    let reg = |n: &str| c.regs.iter().find(|(k, _)| k == n).map(|x| x.1);
+    let (rsp, rbp) = (reg("rsp").ok_or("no rsp")?, reg("rbp").ok_or("no rbp")?);
+    let idx = |a: u64| -> Result<u64, String> {
+        let off = a.checked_sub(*base).ok_or(format!("address {a} below the stack"))?;
+        if off % 8 != 0 {
+            return Err(format!("address {a} is not word-aligned"));
+        }
+        Ok(off / 8)
+    };
+    let (s0, f0) = (idx(rsp)?, idx(rbp)?);
+    let mut f = f0;
+    let mut calls = vec![];
+    for e in exp {
+        let sp = idx(e.sp)?;
+        let nf = idx(e.fp.ok_or("frame without frame pointer")?)?;
+        if sp != f + 2 || nf < sp {
+            return Err(format!("frame at word {f}: sp word {sp}, next record word {nf}"));
+        }
+        calls.push(format!("{}:{}", nf - sp, e.ret));
+        f = nf;
+    }
+    let nwords = bytes.len() as u64 / 8;
+    let tail = nwords.checked_sub(f + 3).ok_or("stack ends inside the outermost record")?;
+    let req = format!("chain layout fp {base} {s0} {f0} {tail} {}", if calls.is_empty() { "-".to_string() } else { calls.join(",") });
+    let want = format!(
+        "rsp={rsp} rbp={rbp} stack:{} exp:{}",
+        hex(bytes),
+        exp.iter().map(|e| format!("{},{},{}", e.ret, e.sp, e.fp.map(|x| x.to_string()).unwrap_or("-".into()))).collect::<Vec<_>>().join("|")
+    );
+    match ask_model(&req) {
+        None => Ok(()), // no model process: `./check` reports the failed build
+        Some(got) if got == want => Ok(()),
+        Some(got) => Err(format!("layout({req}) = {} expected {}", &got[..got.len().min(300)], &want[..want.len().min(300)])),
+    }
+}
+
 fn want_trust(tech: &str) -> FrameTrust {
     match tech {
         "fp" => FrameTrust::FramePointer,
@@ -1309,6 +1356,14 @@ impl Engine for Chain {
             }
         }
         res.tags.push("pre-accepted".into());
+        // x86-64 frame-pointer chains: the generated stack and chain are the Lean layout function of
+        // their parameters (`fpWords` / `fpChain`, for which `preFp` is a theorem: `preFp_layout`)
+        if tech == "fp" && c.arch == "amd64" && c.os != "windows" {
+            match layout_fp_mirror(&c, &exp) {
+                Ok(()) => res.tags.push("layout-tied:fp-amd64".into()),
+                Err(msg) => res.oracle.push(("layout-not-mirrored".into(), msg)),
+            }
+        }
         let fs = &stack.frames;
         let arch = c.arch.clone();
         let mut mismatch = |what: String| res.oracle.push((format!("chain-mismatch-{tech}-{arch}"), what));
@@ -1334,6 +1389,14 @@ impl Engine for Chain {
                 let got = f.context.get_register(fp_name(&c.arch));
                 if got != Some(want) {
                     mismatch(format!("frame {}: recovered {} = {:?} expected {}", i + 1, fp_name(&c.arch), got, want));
+                    break;
+                }
+            } else if ft != "win" {
+                // no frame pointer claimed: off STACK WIN frames (C07's F8a) the theorems assert that
+                // the register is then NOT valid (FrameIsA.fp / scanFrame: nothing recovered)
+                let got = f.context.get_register(fp_name(&c.arch));
+                if got.is_some() {
+                    mismatch(format!("frame {}: recovered {} = {:?} expected none", i + 1, fp_name(&c.arch), got));
                     break;
                 }
             }
@@ -1364,7 +1427,10 @@ impl Engine for Chain {
         if third.starts_with("win:") {
             let f: Vec<&str> = case.splitn(5, ' ').collect();
             if f.len() == 5 {
-                if f[3] == "win:-" {
+                // without STACK WIN records the walk is the `walk` engine's (mkEnv) — off x86, where
+                // mkEnvW = mkEnv is a theorem (MdProofs/C04Mixed.lean, mkEnvW_eq_mkEnv); x86 cases are
+                // always compared with `chain walk` (mkEnvW), the walk the x86 theorems are about
+                if f[3] == "win:-" && !f[4].starts_with("x86 ") {
                     Some(format!("walk {}", f[4]))
                 } else {
                     Some(format!("chain walk {} {}", f[3], f[4]))
